@@ -763,6 +763,22 @@ func (l *Lin) Prove(at ssa.Instruction, x, y Term, k int64) bool {
 	return l.prove(at, nil, x, y, k, 0)
 }
 
+// ProveOnEdge decides x - y <= k for control flowing along the edge from -> to.
+func (l *Lin) ProveOnEdge(from, to *ssa.BasicBlock, x, y Term, k int64) bool {
+	var ex []edgeCond
+	if iff, ok := from.Instrs[len(from.Instrs)-1].(*ssa.If); ok {
+		for idx, sc := range from.Succs {
+			if sc == to {
+				ex = append(ex, edgeCond{iff, idx})
+			}
+		}
+		if len(ex) == 2 {
+			ex = nil
+		}
+	}
+	return l.prove(from.Instrs[len(from.Instrs)-1], ex, x, y, k, 0)
+}
+
 // ProveLE decides a + ao <= b + bo for integer SSA values.
 func (l *Lin) ProveLE(at ssa.Instruction, a ssa.Value, ao int64, b ssa.Value, bo int64) bool {
 	x, xo := l.Expr(a)
